@@ -238,6 +238,19 @@ class EngineBase(PathMgr):
                         best = K
                 self.set_class(v, best, exact=False)
                 return best
+            # split by the classes this value was tested against with isinstance (upper bounds)
+            vid = smt.simp(v).get_id()
+            ks = []
+            for term, K in self.isinst_terms.values():
+                if smt.simp(term).get_id() == vid and K not in ks and not (K.builtin and K.name == 'object'):
+                    ks.append(K)
+            if ks:
+                cidt = smt.cls_of(Val.r(v))
+                guards = [self.sub_term(cidt, K) for K in ks]
+                if not self.feasible(z3.And(*[z3.Not(g) for g in guards])):
+                    K = ks[self.choose(guards)]
+                    self.set_class(v, K, exact=False)
+                    return K
             # type-case split over the (finitely many) exact classes the value can have on this path
             cid = smt.cls_of(Val.r(v))
             poss = []
